@@ -137,6 +137,8 @@ def call(s, kind, req):
         return 'TIMEOUT'
     except RecursionError:
         return 'EXC:RecursionError'
+    except KeyboardInterrupt:
+        return 'EXC:KeyboardInterrupt'
     except Exception as e:
         return 'EXC:' + exc_name(e)
 
@@ -555,6 +557,7 @@ class Traced:
         self.link = link
         self.rx_trace, self.calls = [], ''
         self.nested_count = {}
+        self.boom_count = 0
         self.limit = 400000
 
     sent = property(lambda self: self.link.sent)
@@ -592,6 +595,14 @@ class Traced:
 
     def _receive(self):
         self.nested_activity('receive')
+        boom = self.link.sc.get('boom')
+        if boom and self.link.cur == boom['req']:
+            self.boom_count += 1
+            if self.boom_count == boom['at']:
+                # the transport gives up in the middle of a request (a USB receiver unplugged, Ctrl-C): the request ends with the
+                # exception; whatever is asked of the same server afterwards must not care
+                raise {'KeyboardInterrupt': KeyboardInterrupt, 'OSError': OSError, 'SerialException': realenv.SerialException,
+                       'timeout': real_socket.timeout}[boom['exc']]('scripted')
         self.calls += 'r'
         t0 = CLK.ticks
         if t0 - T0 > self.limit:
@@ -821,6 +832,8 @@ def real_seqs(line):
 def model_line_seqs(line):
     """the recorded back-end trace as the model's environment"""
     sc = json.loads(line.split('|', 1)[1])
+    if sc.get('boom'):
+        return 'no-model'
     s, outs, starts, per_req = run_sequence(sc)
     return '|'.join(['seq', str(sc['retries']), str(sc['delay']), ','.join('1' if t else '0' for t in s.tx_trace),
                      ','.join(f'{dt}:{d.hex()}' for dt, d in s.rx_trace),
@@ -856,7 +869,8 @@ def oracles_seqs(line, real_out):
         j0 = starts[i][3]
         stream = after_last_tx(s.calls[c0:c1], chunks[j0:])
         resp_tag = ('resp' + r['resp']) if r['resp'].isdigit() else r['resp']
-        w = check_result(r['kind'], r['cid'][0], r['cid'][1], resp_tag, outs[i], stream)
+        boomed = sc.get('boom') and sc['boom']['req'] == i and outs[i].startswith('EXC:')
+        w = None if boomed else check_result(r['kind'], r['cid'][0], r['cid'][1], resp_tag, outs[i], stream)
         why4 = why4 or (w and f'request {i}: {w}')
         t0, t1 = starts[i][0], s.ends[i]
         bound = time_bound_ticks(r['kind'], r['cid'][0], sc['retries'], sc['delay'], tmax)
@@ -864,6 +878,8 @@ def oracles_seqs(line, real_out):
         if r['kind'] == 'faf':
             if nsent != 1 or 'r' in s.calls[c0:c1]:
                 why5 = why5 or f'request {i}: fire_and_forget made {nsent} transmissions / read'
+        elif boomed:
+            pass
         elif outs[i] == 'TIMEOUT' or nsent > sc['retries'] + 1 or t1 - t0 > bound:
             why5 = why5 or f'request {i}: {outs[i][:30]} after {nsent} transmissions and {t1 - t0} ticks (bound {float(bound):.1f})'
     recs.append({'prop': 'C04', 'ok': why4 is None, 'expected': 'nothing, or a fresh, matching (and for CFG acknowledged) answer',
@@ -1062,6 +1078,9 @@ def gen_sequence(rng):
         sc['baud'] = rng.choice(BAUDS)          # the line speed was switched after the port was opened
     if rng.random() < 0.2:
         sc['bystander'] = True
+    if rng.random() < 0.08 and len(reqs) > 1:
+        sc['boom'] = {'req': rng.randrange(len(reqs) - 1), 'at': rng.choice([1, 1, 2, 3, 6]),
+                      'exc': rng.choice(['KeyboardInterrupt', 'OSError', 'SerialException'])}
     if rng.random() < 0.15:
         # another frame leaves through fire_and_forget() while a request of the sequence is waiting; the receiver may well
         # acknowledge THAT frame (an ACK naming another request)
